@@ -244,7 +244,7 @@ func init() {
 func c02Replay(o *Obligation, dir string) (string, bool) {
 	if strings.HasPrefix(o.Name, "optimizer.inRange[") {
 		neg := ""
-		if strings.Contains(o.Name, "[not in]") {
+		if strings.Contains(o.Name, "[not-in]") {
 			neg = "not "
 		}
 		src := fmt.Sprintf(`package expr_test
@@ -378,7 +378,7 @@ func genInRange(w *World, res *CheckResult) {
 		fromV, toV := lay.ptrVal("IntegerNode", fa), lay.ptrVal("IntegerNode", ta)
 		st.Store(LocField(rg, lay.off("BinaryNode", "Left")), fromV)
 		st.Store(LocField(rg, lay.off("BinaryNode", "Right")), toV)
-		name := "optimizer.inRange[" + opname + "]"
+		name := "optimizer.inRange[" + strings.ReplaceAll(opname, " ", "-") + "]"
 		binT := types.NewPointer(w.namedType("ast", "BinaryNode"))
 		unT := types.NewPointer(w.namedType("ast", "UnaryNode"))
 		for _, o := range e.Run(fn, []*Value{rv, slot}, st, nil) {
